@@ -1222,7 +1222,7 @@ impl Formatter {
     }
 
     // Render header
-    let header_line = render_row(&node.header, &mut |p| self.paragraph(p));
+    let header_line = render_row(&node.header, &mut |p| self.inline_paragraph(p).trim().to_string());
 
     // Render alignment row
     let mut align_line = String::from("|");
@@ -1238,7 +1238,7 @@ impl Formatter {
     // Render body rows
     let mut body_lines = vec![];
     for row in &node.rows {
-        body_lines.push(render_row(row, &mut |p| self.paragraph(p)));
+        body_lines.push(render_row(row, &mut |p| self.inline_paragraph(p).trim().to_string()));
     }
 
     // Join everything
